@@ -13,7 +13,7 @@ PTR_SIZED = {"usize", "isize"}
 
 
 class Term:
-    __slots__ = ("op", "args", "_hash", "_syms", "__weakref__")
+    __slots__ = ("op", "args", "_hash", "_syms", "_skey", "__weakref__")
     _pool = {}
 
     def __new__(cls, op, *args):
@@ -25,6 +25,7 @@ class Term:
             t.args = args
             t._hash = hash(key)
             t._syms = None
+            t._skey = None
             cls._pool[key] = t
         return t
 
@@ -350,8 +351,19 @@ class T:
         return Term("bin", op, a, b, ty)
 
 
+def _skey_of(x):
+    if isinstance(x, Term):
+        if x._skey is None:
+            x._skey = (x.op,) + tuple(_skey_of(a) for a in x.args)
+        return x._skey
+    if isinstance(x, tuple):
+        return ("(",) + tuple(_skey_of(a) for a in x)
+    return ("#", type(x).__name__, repr(x))
+
+
 def _order(t):
-    return (0 if t.op != "const" else 1, id(t))
+    """deterministic (run-independent) operand order for commutative operations; constants last"""
+    return (0 if t.op != "const" else 1, repr(_skey_of(t)))
 
 
 # ------------------------------------------------------------------------------- printing
